@@ -19,7 +19,7 @@ package main
 //   gen epoch=<E> blocks=<n> maxtx=<n> skip=<pct> nkeys=<n> base=<b> loaded=<pct> frame=<pct> rng=<seed>
 //   car <E> <hex of the CAR file>
 //   tx <E> <first signature hex> <hex addresses mentioned (static keys, then loaded), comma separated>
-//   gsfa <E>
+//   gsfa <E> buckets=<number of buckets of the real pubkey index>
 //   server <E>[,<E>] [sigonly]
 //   slot epoch <E> <n> | slot rpc <n> | slot grpc <n>
 //   sig epoch <E> <hex64> | sig rpc <hex64> | sig grpc <hex64>
@@ -47,6 +47,7 @@ import (
 	"github.com/gagliardetto/solana-go"
 	"github.com/ipfs/go-cid"
 	"github.com/rpcpool/yellowstone-faithful/compactindexsized"
+	"github.com/rpcpool/yellowstone-faithful/gsfa/linkedlog"
 	hugecache "github.com/rpcpool/yellowstone-faithful/huge-cache"
 	"github.com/rpcpool/yellowstone-faithful/indexes"
 	old_faithful_grpc "github.com/rpcpool/yellowstone-faithful/old-faithful-proto/old-faithful-grpc"
@@ -189,6 +190,7 @@ type c03Epoch struct {
 	cidColl  *c03Coll
 	pkColl   *c03Coll
 	pkIdx    *indexes.PubkeyToOffsetAndSize_Reader
+	ll       *linkedlog.LinkedLog
 	addrs    map[solana.PublicKey]int // address -> number of transactions mentioning it
 }
 
@@ -285,6 +287,10 @@ func (h *c03Harness) execGen(line string, w []string) {
 	if err != nil {
 		h.t.Fatalf("cannot open the gsfa pubkey index: %v", err)
 	}
+	e.ll, err = linkedlog.NewLinkedLog(filepath.Join(le.GsfaDir, "linked-log"))
+	if err != nil {
+		h.t.Fatalf("cannot open the gsfa linked log: %v", err)
+	}
 	nTx := 0
 	for _, b := range e.ge.Blocks {
 		h.byBHash[string(b.LastEntryHash)] = b
@@ -323,10 +329,32 @@ func (h *c03Harness) execGen(line string, w []string) {
 			h.s.Op(fmt.Sprintf("tx %d %s %s", o.Epoch, hex.EncodeToString(tx.Sig[:]), strings.Join(as, ",")), "ok", false)
 		}
 	}
-	h.s.Op(fmt.Sprintf("gsfa %d", o.Epoch), fmt.Sprintf("gsfa addrs=%d build=ok", e.pkColl.n), e.pkColl.n == len(e.addrs))
+	h.s.Op(fmt.Sprintf("gsfa %d buckets=%d", o.Epoch, e.pkColl.db.Header.NumBuckets), fmt.Sprintf("gsfa addrs=%d build=ok", len(e.addrs)), e.pkColl.n == len(e.addrs))
 	if e.pkColl.n != len(e.addrs) {
 		h.s.Count("gsfa-index-address-count-differs-from-ground-truth")
 	}
+}
+
+// headReadable: the list the pubkey index points to for pk can be read from the linked log.  A record whose total
+// size is 128 or 16384 cannot (gsfa/linkedlog ReadWithSize re-derives the width of the length prefix from the
+// total): that is property C06's finding, and an address whose request ends in that read error is left out here.
+func (e *c03Epoch) headReadable(pk solana.PublicKey) bool {
+	oas, err := e.pkIdx.Get(pk)
+	if err != nil {
+		return true
+	}
+	ok := true
+	func() {
+		defer func() {
+			if recover() != nil {
+				ok = false
+			}
+		}()
+		if _, _, err := e.ll.ReadWithSize(oas.Offset, oas.Size); err != nil {
+			ok = false
+		}
+	}()
+	return ok
 }
 
 // ---------------------------------------------------------------------------------------------------------------
@@ -573,6 +601,9 @@ func (h *c03Harness) execSig(line string, w []string) {
 			}
 			if r.Error != nil {
 				return c03RPCErrWord(&r)
+			}
+			if strings.TrimSpace(string(r.Result)) == "null" {
+				return "notfound" // what the handler turns "Transaction not found" into, as Solana's RPC does
 			}
 			var tr struct {
 				Transaction []string `json:"transaction"`
@@ -881,7 +912,11 @@ func (h *c03Harness) findKeys(rng *zz.RNG, e *c03Epoch, thorough bool) *c03Keys 
 				return true
 			}
 		}
-		return e.addrs[pk] > 0
+		if !e.headReadable(pk) {
+			h.s.Count("address-left-out:linked-log-record-unreadable(C06)")
+			return true
+		}
+		return false
 	})
 	k.collAddrs = hits
 	h.s.Add("absent-addresses-tried", int(tried))
@@ -889,13 +924,23 @@ func (h *c03Harness) findKeys(rng *zz.RNG, e *c03Epoch, thorough bool) *c03Keys 
 	for i := 0; i < 10; i++ {
 		k.randAddrs = append(k.randAddrs, rng.Bytes(32))
 	}
-	k.randAddrs = append(k.randAddrs, make([]byte, 32))
 	// present addresses with a history short enough to stay clear of the batch limits of the gsfa writer (C06's subject)
 	var as []solana.PublicKey
 	for a, n := range e.addrs {
-		if n <= 400 {
-			as = append(as, a)
+		if n > 400 {
+			continue
 		}
+		readable := true
+		for _, x := range h.epochs {
+			if !x.headReadable(a) {
+				readable = false
+			}
+		}
+		if !readable {
+			h.s.Count("address-left-out:linked-log-record-unreadable(C06)")
+			continue
+		}
+		as = append(as, a)
 	}
 	sort.Slice(as, func(i, j int) bool { return string(as[i][:]) < string(as[j][:]) })
 	for i := 0; i < 10 && len(as) > 0; i++ {
@@ -909,13 +954,13 @@ func (h *c03Harness) generate(thorough bool) {
 	rng := zz.NewRNG(zz.Seed())
 	nb := 260
 	if thorough {
-		nb = 2200
+		nb = 5000
 	}
 	eA := uint64(2 + rng.Intn(6))
 	eB := eA + 1 + uint64(rng.Intn(2))
 	for i, en := range []uint64{eA, eB} {
 		blocks := nb + rng.Intn(nb/4)
-		h.exec(fmt.Sprintf("gen epoch=%d blocks=%d maxtx=3 skip=%d nkeys=%d base=%d loaded=25 frame=4 rng=%d",
+		h.exec(fmt.Sprintf("gen epoch=%d blocks=%d maxtx=3 skip=%d nkeys=%d base=%d loaded=25 frame=0 rng=%d",
 			en, blocks, 30+rng.Intn(30), 90+rng.Intn(40), i+1, rng.U64()>>1))
 	}
 	if len(h.order) != 2 {
@@ -1020,6 +1065,9 @@ func TestVerifC03(t *testing.T) {
 			}
 			if e.pkIdx != nil {
 				e.pkIdx.Close()
+			}
+			if e.ll != nil {
+				e.ll.Close()
 			}
 		}
 	}()
